@@ -326,7 +326,9 @@ pub fn run(rep: &Report) {
          arithmetic, tuples, chains, assignments inside operand positions, eager `if`, and `false && rec3(..)` (no \
          short-circuit), over contexts with 0..3 bound variables; oracle: the reference interpreter's triple (result \
          — exact variable / function name, exact custom message, exact operands of the failing integer operation —, \
-         final variable map, ordered call log with arguments). Non-trivial: >= 2 effects and a failure after at \
+         final variable map, ordered call log with arguments); the same call log and final variables are required \
+         through one typed string-level and one typed tree-level `_mut` entry point per program (\"exactly once\" \
+         through every entry point). Non-trivial: >= 2 effects and a failure after at \
          least one effect, or >= 3 logged calls.",
     );
     rep.assume("user functions are deterministic and their only side effect is the harness-owned call log");
